@@ -16,21 +16,19 @@ theorem tinv_ensureWriter (c : Cfg) (n : Nat) (a : ATopic) (k : Nat) (h : TInv c
   cases hw : a.writer with
   | some w => exact ⟨h, Nat.le_refl _, hw, rfl, rfl⟩
   | none =>
-    have hch := h.noWriterNoChain hw
-    have hidx : a.curIdx = 0 := by have := h.idx_le; rw [hch] at this; simpa using this
-    have hk : k = 0 := by
-      have := h.tailPos (by rw [hidx, hch]; rfl)
-      rw [hw, hch] at this; simpa using this
     refine ⟨?_, Nat.le_succ _, rfl, ?_, rfl⟩
     · refine ⟨h.idx_le, h.sealedPos, h.tailOff0, ?_, ?_, Nat.lt_succ_of_lt h.tailIdLt, ?_, ?_, ?_⟩
-      · intro _
+      · intro hidx
         show if a.tailId = n then _ else k = (chainEs a.chain).length
-        have : a.tailId ≠ n := Nat.ne_of_lt h.tailIdLt
-        simp only [this, if_false, hch, hk]; rfl
-      · intro hlt; rw [hch] at hlt; simp at hlt
+        have hne : a.tailId ≠ n := Nat.ne_of_lt h.tailIdLt
+        have := h.tailPos hidx
+        rw [hw] at this
+        simp only [hne, if_false]; exact this
+      · intro _ w hw'; cases hw'; exact Nat.ne_of_lt h.tailIdLt
       · intro w hw'; cases hw'; exact Nat.lt_succ_self _
       · intro hx; cases hx
-      · rw [hk]; exact Nat.zero_le _
+      · have := h.k_le
+        simpa [log, tailEs, hw] using this
     · simp [log, tailEs, hw]
 
 /-- appending entries to the active block -/
